@@ -374,11 +374,29 @@ def run_lines(exe, args, lines, timeout=600, shards=1):
     """Feed request lines to a line-protocol process; returns list of response lines.
     With shards>1 the input is split over several processes."""
     if shards <= 1 or len(lines) < 64:
-        rc, out, err = sh([exe] + args, input=("\n".join(lines) + "\n").encode(), timeout=timeout)
-        res = out.split("\n")
-        if res and res[-1] == "":
-            res.pop()
-        return rc, res, err
+        # One answer line per request line. A process that is killed by the timeout (or dies) leaves a partial last
+        # line: only complete lines are kept, and the rest of the requests goes to a fresh process (the request at which a
+        # process DIED is answered `<crash>`), so answers always stay aligned with requests.
+        res, errs, rc_all, start, restarts = [], [], 0, 0, 0
+        while start < len(lines):
+            rc, out, err = sh([exe] + args, input=("\n".join(lines[start:]) + "\n").encode(), timeout=timeout)
+            rc_all = max(rc_all, rc)
+            errs.append(err)
+            part = out.split("\n")
+            complete = part[:-1]            # text after the last newline is a partial line (or empty)
+            res += complete[:len(lines) - start]
+            got = len(complete)
+            if got >= len(lines) - start:
+                break
+            restarts += 1
+            if restarts > 8:
+                res += ["<missing>"] * (len(lines) - len(res))
+                break
+            if rc != 124:
+                res.append("<crash rc=%d>" % rc)
+                got += 1
+            start += got
+        return rc_all, res, "".join(errs)
     import concurrent.futures
     n = len(lines)
     k = min(shards, n)
